@@ -13,7 +13,7 @@ from cirkit.symbolic import functional as SF
 from cirkit.symbolic.circuit import CircuitOperator
 from cirkit.symbolic.registry import OPERATOR_REGISTRY
 
-from mc import bfs, cdl, pools
+from mc import bfs, cdl, pools, ref
 from mc.harness import bind_compiler, circuit_tensor_params
 
 PROPERTY = "C18"
@@ -21,7 +21,9 @@ LEVEL = "model_checking"
 RULE = (
     "explicit-state BFS over all histories (up to the depth bound) of the events {enter A, enter B, exit, exit with an "
     "escaping exception, compile c0, compile c1 (module-level, current context), compile c0 with ctx=A, integrate(cc0), "
-    "multiply(cc0, cc1), conjugate(cc0), concatenate(cc0, cc1), compile a derived circuit before its operands}; every transition calls the real API on fresh real "
+    "multiply(cc0, cc1), conjugate(cc0), concatenate(cc0, cc1), compile a derived circuit before its operands (the chain "
+    "integrate(c0*c0) and the DAG c0*(c0*c1) whose shared operand is listed before its deeper user), each followed by a value check "
+    "against the operands compiled in the same context}; every transition calls the real API on fresh real "
     "objects (whole history replayed inside contextvars.copy_context()), a Python reference model (stack of contexts + "
     "per-context compiled maps + compile log) is stepped in lockstep and the invariant is evaluated in every state. "
     "State key = (context stack, per-context set of compiled circuits)"
@@ -54,12 +56,15 @@ CONFIGS = [
     ({"semiring": "complex-lse-sum", "fold": True, "optimize": True}, {"semiring": "sum-product", "fold": False, "optimize": False}),
 ]
 
-EVENTS = ["enterA", "enterB", "exit", "exit-raise", "compile c0", "compile c1", "compileA c0", "integrate", "multiply", "conjugate", "concatenate", "derived-first"]
+EVENTS = ["enterA", "enterB", "exit", "exit-raise", "compile c0", "compile c1", "compileA c0", "integrate", "multiply", "conjugate", "concatenate", "derived-first", "dag-first"]
 
 
 def cases(tier, seed):
+    # one search per configuration, sharded over the workers by its first event (the union over all first events enabled
+    # in the initial state is the whole search; the empty history itself is checked by every shard's replay of its prefix)
     for i in range(BOUNDS[tier]["configs"]):
-        yield {"config": i, "depth": BOUNDS[tier]["depth"]}
+        for ev in enabled(initial()):
+            yield {"config": i, "depth": BOUNDS[tier]["depth"], "prefix": [ev]}
 
 
 # ------------------------------------------------------------------ model
@@ -81,7 +86,7 @@ def enabled(m):
         evs.append("enterB")
     if m["stack"]:
         evs += ["exit", "exit-raise"]
-    evs += ["compile c0", "compile c1", "compileA c0", "derived-first"]
+    evs += ["compile c0", "compile c1", "compileA c0", "derived-first", "dag-first"]
     anywhere = set().union(*[set(v) for v in m["compiled"].values()])
     if "c0" in anywhere:
         evs += ["integrate", "conjugate"]
@@ -94,7 +99,7 @@ def key_of(m):
     return (tuple(m["stack"]), tuple((k, tuple(sorted(v))) for k, v in sorted(m["compiled"].items())))
 
 
-OPERANDS = {"int0": ["c0"], "mul01": ["c0", "c1"], "sq0": ["c0"], "d": ["sq0"]}
+OPERANDS = {"int0": ["c0"], "mul01": ["c0", "c1"], "sq0": ["c0"], "d": ["sq0"], "q": ["c0", "c1"], "r": ["c0", "q"]}
 
 
 def closure(name):
@@ -116,7 +121,8 @@ def make_real(cfg_idx):
     s0, roles0 = cdl.build_circuit(pools.spec_from(circ))
     s1, roles1 = cdl.build_circuit(pools.spec_from(dict(circ, kin=1, ksum=1)))
     sq0 = SF.multiply(s0, s0)
-    sym = {"c0": s0, "c1": s1, "sq0": sq0, "d": SF.integrate(sq0)}
+    q = SF.multiply(s0, s1)
+    sym = {"c0": s0, "c1": s1, "sq0": sq0, "d": SF.integrate(sq0), "q": q, "r": SF.multiply(s0, q)}
     return {"ctx": {"A": PipelineContext(backend="torch", **ca), "B": PipelineContext(backend="torch", **cb), "D": _DEFAULT_CTX},
             "flags": {"A": ca, "B": cb, "D": {"semiring": "lse-sum", "fold": True, "optimize": True}},
             "sym": sym, "cc": {}, "roles": {**roles0, **roles1}}
@@ -190,6 +196,10 @@ def step(real, m, ev):
         probs += _compile_in(real, m, "A", "c0", "explicit")
     elif ev == "derived-first":
         probs += _compile_in(real, m, cur, "d", "module")
+        probs += derived_value_check(real, cur, "d")
+    elif ev == "dag-first":
+        probs += _compile_in(real, m, cur, "r", "module")
+        probs += derived_value_check(real, cur, "r")
     elif ev in ("integrate", "multiply", "conjugate", "concatenate"):
         names = ["c0"] if ev in ("integrate", "conjugate") else ["c0", "c1"]
         ccs, known = [], True
@@ -229,6 +239,31 @@ def step(real, m, ev):
             probs.append((f"registry is not a bijection for the {ev} result", {"kind": "bijection", "event": ev}))
         probs += numeric_check(real, cur, ev, res, names)
     return probs
+
+
+def derived_value_check(real, cur, name):
+    """d = sum_x c0(x)^2 and r = c0(x)^2 c1(x), computed from the operands compiled in the same context."""
+    ctx = real["ctx"][cur]
+    semiring = real["flags"][cur]["semiring"]
+    bind_compiler(ctx._compiler, cdl.valuation(real["roles"], "monotone", int(os.environ.get("VERIF_SEED", "0"))))
+    dom = ref.var_domains(real["sym"]["c0"])
+    x = torch.tensor([[i, j] for i in range(dom[0][1]) for j in range(dom[1][1])])
+
+    def lin(y):
+        y = y.detach()
+        return y if semiring == "sum-product" else torch.exp(y)
+
+    c0 = lin(real["cc"][(cur, "c0")](x)).to(torch.complex128)
+    got = lin(real["cc"][(cur, name)]() if name == "d" else real["cc"][(cur, name)](x)).to(torch.complex128)
+    if name == "d":
+        want = (c0 ** 2).sum(dim=0, keepdim=True)
+        got = got.reshape(want.shape) if got.numel() == want.numel() else got
+    else:
+        want = c0 ** 2 * lin(real["cc"][(cur, "c1")](x)).to(torch.complex128)
+    if got.shape != want.shape or not torch.allclose(got, want, rtol=1e-9, atol=1e-12):
+        return [(f"compiled derived circuit {name} differs from its definition on the operands compiled in the same context: "
+                 f"{got.reshape(-1)[:3]} vs {want.reshape(-1)[:3]}", {"kind": "derived-value", "name": name})]
+    return []
 
 
 def numeric_check(real, cur, ev, res, names):
@@ -316,10 +351,10 @@ def run_case(case):
             return {"status": "violation", "nontrivial": True, "violations": [{"sig": probs[0][1], "detail": probs[0][0], "case": case}], "sig": probs[0][1], "detail": probs[0][0]}
         return {"status": "ok", "nontrivial": True}
     cfg = case["config"]
-    res = bfs.explore(initial, enabled, replay_factory(cfg), case["depth"])
+    res = bfs.explore(initial, enabled, replay_factory(cfg), case["depth"], prefix=case.get("prefix"))
     out = {"status": "violation" if res.violations else "ok", "nontrivial": res.states > 1, "nontrivial_n": max(0, res.states - 1),
            "states": res.states, "transitions": res.transitions, "traces": res.replays, "evaluations": res.transitions,
-           "counters": {"events_used": len(res.events_used)}, "dims": {"config": cfg, "depth_reached": res.max_depth},
+           "counters": {f"used:{cfg}:{e}": 1 for e in res.events_used}, "dims": {"config": cfg, "depth_reached": res.max_depth, "first": str((case.get("prefix") or ["-"])[0])},
            "outcome": f"{res.states}", "summary": f"states={res.states} transitions={res.transitions} e.g. {res.sample_histories[:1]}"}
     if res.violations:
         out["violations"] = [{"sig": sig, "detail": msg, "case": {"config": cfg, "history": hist}} for hist, msg, sig in res.violations]
@@ -327,6 +362,8 @@ def run_case(case):
 
 
 def finalize(agg):
-    if agg["counters"].get("events_used", 0) < len(EVENTS) * max(1, agg["status"].get("ok", 0)):
-        return [f"not every event of the alphabet was used in every configuration: {agg['counters']}"]
+    cfgs = {k.split(":")[1] for k in agg["counters"] if k.startswith("used:")}
+    missing = [f"{c}:{e}" for c in sorted(cfgs) for e in EVENTS if not agg["counters"].get(f"used:{c}:{e}")]
+    if missing and not agg["status"].get("violation"):
+        return [f"not every event of the alphabet was used in every configuration: missing {missing[:6]}"]
     return []
